@@ -8,6 +8,7 @@ import DltVerif.Model.Nom
 import DltVerif.Lemmas.Utf8
 import DltVerif.Lemmas.Zts
 import DltVerif.Lemmas.Utf8Spec
+import DltVerif.Spec.Codec
 
 namespace Dlt
 
@@ -58,6 +59,19 @@ theorem C19_spec (n : Nat) (s : Bytes) :
     rfl
   · simp only [h, if_false]
     exact zts_short n s (by omega)
+
+/-- "the 4-byte ECU, application and context ids of a message obey the same rule": the text the
+    reference decoder of C02 reads from a 4-byte id field (`Spec.fieldText`, to which the parser is
+    tied for ALL byte strings by `C02_decode`: storage-header ECU id at offset 12, header ECU
+    id, application and context id at the offsets the header-type byte implies) is the text of
+    the Spec's fixed-size field of 4 bytes -/
+theorem C19_ids (field : Bytes) (h : field.length = 4) :
+    Spec.fieldText field = Spec.idText field := by
+  unfold Spec.idText Spec.ztsField
+  rw [if_pos (by omega)]
+  simp only
+  rw [List.take_of_length_le (by omega), longestValid_self]
+  rfl
 
 -- non-vacuity: "AB\0C" + invalid byte, size 4, one byte left over
 example : zts 4 [0x41#8, 0x42#8, 0#8, 0x43#8, 0xFF#8] = .ok [0x41#8, 0x42#8] [0xFF#8] := by
